@@ -528,7 +528,7 @@ pub fn run(a: &Args) -> Option<Report> {
     let mut rep = Report::new("C14", &a.leg, a.seed);
     let mut r = Rng::new(a.shard_seed());
     let miri = cfg!(miri);
-    let mut run_one = |rep: &mut Report, r: &mut Rng, is_str: bool, ctors: Vec<u64>, ops: Vec<(u64, usize, usize)>| {
+    let run_one = |rep: &mut Report, r: &mut Rng, is_str: bool, ctors: Vec<u64>, ops: Vec<(u64, usize, usize)>| {
         let res = rt::catch(|| if is_str { run_str_seq(r, &ctors, &ops) } else { run_slice_seq(r, &ctors, &ops) });
         let mut h = is_str as u64;
         for c in &ctors {
